@@ -390,3 +390,24 @@ def check_row_iter(repo: Repo, L: Ledger, rule: str, cls, name: str, want_type: 
     if sm is None:
         raise AnalysisError(f"{cls.name}.{name}: row iterator is not in a form the summary understands (direct loop over self.rows, delegation to a parameterised helper, generator expression)")
     L.check(sm == (want_type, want_shape), rule, f"{cls.name}.{name}", ok_msg, f"{bad_msg}: it yields {sm[1]} items for rows of type {sm[0]}", f.loc())
+
+
+def append_loop_elt(loop: ast.For):
+    """`for T in IT: <if/else tree whose every leaf is exactly one  v.append(E)>`  ->  (v, element expression as IfExp tree)
+    i.e. the loop is  v.extend(<elt> for T in IT).  None when the body has any other shape."""
+    def tree(stmts):
+        stmts = [s for s in stmts if not is_noise(s)]
+        if len(stmts) != 1:
+            return None
+        s = stmts[0]
+        if isinstance(s, ast.Expr) and isinstance(s.value, ast.Call) and isinstance(s.value.func, ast.Attribute) and s.value.func.attr == "append" and isinstance(s.value.func.value, ast.Name) and len(s.value.args) == 1 and not s.value.keywords:
+            return s.value.func.value.id, s.value.args[0]
+        if isinstance(s, ast.If) and s.orelse:
+            a, b = tree(s.body), tree(s.orelse)
+            if a and b and a[0] == b[0]:
+                return a[0], ast.copy_location(ast.IfExp(test=s.test, body=a[1], orelse=b[1]), s)
+        return None
+
+    if loop.orelse:
+        return None
+    return tree(loop.body)
